@@ -269,6 +269,16 @@ class Ob:
 VIOLATION_GRACE_S = 8
 
 
+def _raised_in_verif(e):
+    tb = e.__traceback__
+    last = None
+    while tb is not None:
+        last = tb
+        tb = tb.tb_next
+    fn = last.tb_frame.f_code.co_filename if last is not None else ""
+    return fn.startswith(VERIF + os.sep) and os.sep + "stubs" + os.sep not in fn
+
+
 def _run_ob(task):
     """worker: explore one obligation (or a set of root prefixes of it)"""
     ob, roots, deviations, canary, seed, solver_timeout_ms, path_cap = task
@@ -308,6 +318,9 @@ def _run_ob(task):
                 if st == "unknown":
                     out["unknown"].append(label)
             ctx.results = []
+            if p.outcome == "raise" and isinstance(p.value, (NameError, ImportError, SyntaxError)) and _raised_in_verif(p.value):
+                # a bug of the harness itself (it would "reproduce" in the replay, which runs the same harness)
+                raise p.value
             if p.outcome == "raise" and not isinstance(p.value, Skip) and not ob.exc_ok:
                 label = "no-unexpected-exception"
                 d = out["checks"].setdefault(label, {"discharged": 0, "violated": 0, "unknown": 0})
